@@ -415,22 +415,29 @@ class Arbiter:
         if self.reexec_pid != 0:
             return
 
-        self.cfg.pre_exec(self)
+        try:
+            self.cfg.pre_exec(self)
 
-        environ = self.cfg.env_orig.copy()
-        environ['GUNICORN_PID'] = str(master_pid)
+            environ = self.cfg.env_orig.copy()
+            environ['GUNICORN_PID'] = str(master_pid)
 
-        if self.systemd:
-            environ['LISTEN_PID'] = str(os.getpid())
-            environ['LISTEN_FDS'] = str(len(self.LISTENERS))
-        else:
-            environ['GUNICORN_FD'] = ','.join(
-                str(lnr.fileno()) for lnr in self.LISTENERS)
+            if self.systemd:
+                environ['LISTEN_PID'] = str(os.getpid())
+                environ['LISTEN_FDS'] = str(len(self.LISTENERS))
+            else:
+                environ['GUNICORN_FD'] = ','.join(
+                    str(lnr.fileno()) for lnr in self.LISTENERS)
 
-        os.chdir(self.START_CTX['cwd'])
+            os.chdir(self.START_CTX['cwd'])
 
-        # exec the process using the original environment
-        os.execvpe(self.START_CTX[0], self.START_CTX['args'], environ)
+            # exec the process using the original environment
+            os.execvpe(self.START_CTX[0], self.START_CTX['args'], environ)
+        except Exception:
+            # we are still a copy of the running master: leave at once, the
+            # error path of the main loop would stop *its* workers and
+            # remove *its* pid file and socket
+            self.log.exception("Could not execute the new master")
+            os._exit(1)
 
     def reload(self):
         old_address = self.cfg.address
